@@ -48,7 +48,12 @@ def handle : Handler := fun op inp impl =>
     -- model
     let m := scriptReport total steps
     let mTot : Totals := { passed := m.succeeded, failed := m.failed, expected := m.expectedFailures, notRun := m.couldNotRun }
-    let agree := unparsed.isEmpty && iOk == m.ok && iTot == mTot && iCases == (m.totalCases : Int)
+    -- the API call sequence must amount to the outcome map the theorems (`assignment_report`) speak of
+    let m2 := report (marksOf cases) total (finalMap cases) []
+    let scriptIsMap := m.ok == m2.ok && m.totalCases == m2.totalCases && m.succeeded == m2.succeeded
+      && m.failed == m2.failed && m.expectedFailures == m2.expectedFailures && m.couldNotRun == m2.couldNotRun
+      && sortStrings m.failedNames == sortStrings m2.failedNames && sortStrings m.infoNames == sortStrings m2.infoNames
+    let agree := scriptIsMap && unparsed.isEmpty && iOk == m.ok && iTot == mTot && iCases == (m.totalCases : Int)
       && iFailed == sortStrings m.failedNames && iInfo == sortStrings m.infoNames
     let model := Json.mkObj [("ok", m.ok), ("total", m.totalCases), ("passed", m.succeeded), ("failed", m.failed),
       ("expected", m.expectedFailures), ("notRun", m.couldNotRun),
